@@ -24,14 +24,67 @@ let fmt_g p b = bytes_of_string (Printf.sprintf "%.*g" (int_of_z p) (Int64.float
 let scan_g t = match float_of_string_opt (string_of_bytes t) with
   | Some f -> Some (z_of_int64 (Int64.bits_of_float f))
   | None -> None
-(* mirrors the repaired sexp_read_float_tail: the whole part arrives as a double (converted from the
-   integer read so far), is printed back with "%.0f", the fraction digits are appended and the text
-   "<digits>e<exp - #fraction digits>" goes through strtod *)
-let dec2flo whole fr e =
+(* libc parameters of the repaired sexp_read_float_tail as modelled in C08/Model3.v (dec2flo_strtod):
+   strtod on the collected digits, snprintf "%.0f", (double)(sexp_sint_t); outside the strtod path
+   (>= 1100 digits, |exponent| >= 10^6) the old arithmetic is approximated by the correctly rounded value *)
+let strtod t = match float_of_string_opt (string_of_bytes t) with
+  | Some f -> z_of_int64 (Int64.bits_of_float f)
+  | None -> z_of_int64 (Int64.bits_of_float nan)
+let fmt_0f b = bytes_of_string (Printf.sprintf "%.0f" (Int64.float_of_bits (int64_of_z b)))
+let i2d w = z_of_int64 (Int64.bits_of_float (float_of_string (string_of_bytes (write_nat w))))
+let old_arith whole fr e =
   let w = float_of_string (string_of_bytes (write_nat whole)) in
   let ex = (match e with Zneg _ -> - (int_of_z (zabs e)) | _ -> int_of_z e) - List.length fr in
   let s = Printf.sprintf "%.0f" w ^ string_of_bytes fr ^ "e" ^ string_of_int ex in
   z_of_int64 (Int64.bits_of_float (float_of_string s))
+let dec2flo = dec2flo_strtod strtod fmt_0f i2d old_arith
+
+(* ---- the hypotheses of flonum_roundtrip_given (record libc_flonum of C08/FloProofs.v), tested on one
+   finite double with the libc behind OCaml; texts are rebuilt with the EXTRACTED utext/stext/val *)
+let is_digit c = c >= '0' && c <= '9'
+let parse_shape (t : string) =
+  let n = String.length t in
+  let i = ref 0 in
+  let neg = n > 0 && t.[0] = '-' in
+  if neg then incr i;
+  let span () = let j = !i in while !i < n && is_digit t.[!i] do incr i done; String.sub t j (!i - j) in
+  let w = span () in
+  let fr = if !i < n && t.[!i] = '.' then (incr i; let f = span () in if f = "" then raise Exit else f) else "" in
+  let ex = if !i < n && t.[!i] = 'e' then begin
+      incr i;
+      if !i >= n || (t.[!i] <> '+' && t.[!i] <> '-') then raise Exit;
+      let en = t.[!i] = '-' in incr i;
+      let ed = span () in
+      if ed = "" || String.length ed > 4 then raise Exit;
+      Some (en, bytes_of_string ed) end else None in
+  if !i <> n || w = "" || String.length w + String.length fr > 40 then raise Exit;
+  (neg, bytes_of_string w, bytes_of_string fr, ex)
+
+let flohyp b =
+  let x = Int64.float_of_bits (int64_of_z b) in
+  let fail what p t = failwith (Printf.sprintf "%s p=%d text=%s" what p (string_of_bytes t)) in
+  try
+    List.iter (fun p ->
+      let t = fmt_g (z_of_int p) b in
+      let (neg, w, fr, ex) = (try parse_shape (string_of_bytes t) with Exit -> fail "lf_shape" p t) in
+      if neg <> (Int64.compare (Int64.bits_of_float x) 0L < 0) then fail "lf_shape:sign" p t;
+      let u = utext w fr ex in
+      if stext neg u <> t then fail "lf_shape:text" p t;
+      if fmt_0f (i2d (dval w)) <> w then fail "lf_shape:%.0f" p t;
+      (match scan_g t with Some r when r = strtod t -> () | _ -> fail "lf_scan" p t);
+      if strtod (z_of_int 45 :: u) <> flip_sign (strtod u) then fail "lf_sign" p t;
+      (match strtod u with Zneg _ -> fail "lf_pos" p t
+                         | r -> if Int64.compare (int64_of_z r) 0L < 0 then fail "lf_pos" p t);
+      (* lf_val on the two instances the reader can produce: digits collected as they are, and with ".0" appended *)
+      let exv = (match ex with None -> 0 | Some (en, ed) -> let v = int_of_z (dval ed) in if en then - v else v) in
+      let inst fr' =
+        let k = exv - List.length fr' in
+        if strtod (w @ fr' @ (z_of_int 101 :: write_int (z_of_int k))) <> strtod u then fail "lf_val" p t in
+      inst fr;
+      if patched fr ex then inst [z_of_int 48]) [15; 16; 17];
+    if strtod (fmt_g (z_of_int 17) b) <> b then fail "lf_rt17" 17 (fmt_g (z_of_int 17) b);
+    "OK"
+  with Failure m -> "FAIL " ^ m
 
 let rec parse toks = match toks with
   | [] -> failwith "datum tokens end early"
@@ -143,6 +196,27 @@ let lenc v =
     | LDef _ -> failwith "impossible" in
   go v; Buffer.contents b
 
+(* ---- exact ratios / complex numbers at token level (C08/Numbers.v); wire syntax as the plugin's enc:
+     I<hex>  Q<hex num>/<hex den>  X <re> <im> *)
+let enum_of_tok t =
+  let a = String.sub t 1 (String.length t - 1) in
+  (match t.[0] with
+   | 'I' -> EInt (z_of_hex a)
+   | 'Q' -> (match String.split_on_char '/' a with
+             | [n; d] -> ERat (z_of_hex n, z_of_hex d)
+             | _ -> failwith ("bad ratio token " ^ t))
+   | _ -> failwith ("bad exact number token " ^ t))
+let xnum_of_toks = function
+  | ["X"; a; b] -> XCpx (enum_of_tok a, enum_of_tok b)
+  | [a] -> XReal (enum_of_tok a)
+  | l -> failwith ("bad number tokens " ^ String.concat " " l)
+let tok_of_enum = function
+  | EInt z -> "I" ^ hex_of_z z
+  | ERat (n, d) -> "Q" ^ hex_of_z n ^ "/" ^ hex_of_z d
+let toks_of_xnum = function
+  | XReal r -> tok_of_enum r
+  | XCpx (a, b) -> "X " ^ tok_of_enum a ^ " " ^ tok_of_enum b
+
 let handle = function
   | "write" :: toks -> let (d, _) = parse toks in hex_of_bytes (write fmt_g scan_g d)
   | ["read"] | ["read"; ""] -> "EOF"
@@ -158,6 +232,28 @@ let handle = function
      | Err ReadErr -> "ERR ReadErr"
      | Err Unmodelled -> "ERR Unmodelled"
      | Err OutOfFuel -> "ERR OutOfFuel")
+  | ["swritec"; t] -> let (d, _) = parse [t] in (match d with Chr c -> hex_of_bytes (swrite_char c) | _ -> "ERR not a char")
+  | ["flohyp"; t] -> let (d, _) = parse [t] in (match d with Flo b -> flohyp b | _ -> "ERR not a flonum")
+  | "rt" :: toks ->
+    (* the compound theorem on this datum: model reader (fuel = height + 2) on the model writer's text followed by ")" *)
+    let (d, _) = parse toks in
+    let rec canon d = (match d with
+      | Flo b -> Flo (flo_canon b) | Pair (a, t) -> Pair (canon a, canon t) | Vec l -> Vec (List.map canon l) | x -> x) in
+    let fuel = nat_of_int (int_of_nat (height d) + 2) in
+    (match read_raw dec2flo fuel (write fmt_g scan_g d @ [z_of_int 41]) with
+     | Ok (TDatum d', rest) when d' = canon d && rest = [z_of_int 41] -> "OK"
+     | Ok (TDatum d', _) -> "FAIL " ^ unparse d'
+     | _ -> "FAIL ERR")
+  | "nwrite" :: toks -> hex_of_bytes (write_xnum (xnum_of_toks toks))
+  | ["nread"; h] ->
+    let s = bytes_of_hex h in
+    (match read_num_token (nat_of_int (String.length h / 2 + 2)) s with
+     | NOk (x, rest) ->
+       let trail = (match read_top dec2flo (nat_of_int (List.length rest + 2)) rest with Ok (TEof, _) -> "" | _ -> " TRAIL") in
+       toks_of_xnum x ^ trail
+     | NErr ReadErr -> "ERR ReadErr"
+     | NErr Unmodelled -> "ERR Unmodelled"
+     | NErr OutOfFuel -> "ERR OutOfFuel")
   | "lwrite" :: toks -> let (g, _) = gparse toks in render (wr g)
   | "lread" :: toks ->
     (match read_labels (List.map ltok_of_string (List.filter (fun t -> t <> "") toks)) with
